@@ -359,7 +359,10 @@ def judge(pb, result, cname, keys, states, wbase, res, pid):
                         diff = {str(k): (str(r0.state[k]), str(got[k])) for k in s if got[k] != r0.state[k]}
                         kinds = effect_kinds_on(a, diff)
                         mech = "successor-mismatch:" + kinds
-                        if split_incdec(a, v) and all("increase" in k or "decrease" in k for k in kinds.split(",")):
+                        incdec_names = {
+                            (e.fluent.arg(0) if e.fluent.is_dot() else e.fluent).fluent().name for e in a.effects if e.is_increase() or e.is_decrease()
+                        }
+                        if split_incdec(a, v) and all(k[-2] in incdec_names for k in s if got[k] != r0.state[k]):
                             mech = "conditional-incdec-split-fires-twice"
                         viol(
                             mech,
